@@ -19,6 +19,8 @@ After the repairs 048b490, 1a1b62e, 9de9983, 8fa2a67, 34967fc the clauses hold w
          `C14_3_exact`, `C14_3_mentions_only`;  ON-derived filters (after 34967fc): `C14_3_on` (top-level
          conjuncts of the ON of a join that is not RIGHT/FULL, mentioning only that table, or semi-join
          filters — unconditional), `C14_3_on_outer`, `C14_3_on_mentions_only`
+         `C14_3_pushed_stored`, `C14_3_nullable` (15097fa: no `IS` condition is pushed on the null-supplying side
+         of an outer join)
 * T14.4  `C14_4_values_from_using`, `C14_4_last_wins`, `C14_4_unprefixed`, `C14_4_foreign_prefix`,
          `C14_4_own_prefix` (alias prefix in ANY case), `C14_4_partition_size_removed`
 * T14.5  `C14_5_sound`, `C14_5_complete`, `C14_5_neutralised`, `C14_5_swap` (`model JOIN table ON …`: the model's
@@ -76,6 +78,8 @@ def C14_full : Prop :=
     ∧ ((predictorArgs ops i (some w) (some u)).2.2.2 = (effOn ops i).map (colMap ops i) ∧
        (isSwap ops = true → effOn ops 0 = (ops.getD 1 default).on ∧
           onAfter ops 1 = (ops.getD 1 default).on.map (neut (mapped ops 0))))
+    -- what is pushed is among what is stored, and on the null-supplying side of an outer join it rejects NULLs
+    ∧ (∀ f ∈ whereFilters ops j (some w), f ∈ conditionsOf ops j w ∧ (isNullable ops j = true → acceptsNull f = false))
     -- identifier rewriting keeps the table an identifier denotes
     ∧ (∀ q, lookupFrom ops q 0 = some j → lookupFrom ops (shortName ops j) 0 = some j)
 
@@ -202,17 +206,45 @@ theorem C14_2 (ops : List Operand) (i : Nat) (tgt : Option String) (w c : E)
 /-! ## T14.3 — what is pushed into a table's fetch -/
 
 /-- exact characterisation: the WHERE-derived filters of operand `j` (table or sub-select) are the stored
-copies of the top-level conjuncts attributed to `j`, unless an `or` occurs anywhere in WHERE -/
+copies of the top-level conjuncts attributed to `j` — unless an `or` occurs anywhere in WHERE, and without the
+`IS` conditions when `j` is on the null-supplying side of an outer join (15097fa) -/
 theorem C14_3_exact (ops : List Operand) (j : Nat) (w f : E) :
     f ∈ whereFilters ops j (some w) ↔
-      (opsOf w).contains "or" = false ∧ ∃ c ∈ topConjuncts w, attributed ops c = some (j, f) := by
+      (opsOf w).contains "or" = false ∧ (∃ c ∈ topConjuncts w, attributed ops c = some (j, f)) ∧
+      (isNullable ops j = true → acceptsNull f = false) := by
   simp only [whereFilters]
   split
   · rename_i h; rw [h]; simp
   · rename_i h
-    rw [mem_conditionsOf]
     have h' : (opsOf w).contains "or" = false := by simpa using h
-    rw [h']; simp
+    split
+    · rename_i hn
+      rw [List.mem_filter, mem_conditionsOf, h']
+      simp [hn]
+    · rename_i hn
+      rw [mem_conditionsOf, h']
+      simp [hn]
+
+/-- what is pushed is among what is stored -/
+theorem C14_3_pushed_stored (ops : List Operand) (j : Nat) (w : Option E) (f : E) (hf : f ∈ whereFilters ops j w) :
+    ∃ w', w = some w' ∧ f ∈ conditionsOf ops j w' := by
+  cases w with
+  | none => simp [whereFilters] at hf
+  | some w' =>
+    refine ⟨w', rfl, ?_⟩
+    simp only [whereFilters] at hf
+    split at hf
+    · cases hf
+    · split at hf
+      · exact (List.mem_filter.mp hf).1
+      · exact hf
+
+/-- **15097fa**: on the null-supplying side of an outer join no `IS` condition is applied before the join -/
+theorem C14_3_nullable (ops : List Operand) (j : Nat) (w : Option E) (f : E) (hn : isNullable ops j = true)
+    (hf : f ∈ whereFilters ops j w) : acceptsNull f = false := by
+  cases w with
+  | none => simp [whereFilters] at hf
+  | some w' => exact ((C14_3_exact ops j w' f).mp hf).2.2 hn
 
 /-- … which mentions only that operand -/
 theorem C14_3_mentions_only (ops : List Operand) (j : Nat) (c f : E) (ha : attributed ops c = some (j, f)) :
@@ -413,7 +445,7 @@ theorem C14_witness_on_gt :
 statement too. -/
 theorem C14_partial : C14_full := by
   intro ops w i j tgt u
-  refine ⟨C14_where_clauses ops w i j tgt u, ?_, ?_, ⟨rfl, fun hs => ?_⟩, fun q h => shortName_resolves ops q j h⟩
+  refine ⟨C14_where_clauses ops w i j tgt u, ?_, ?_, ⟨rfl, fun hs => ?_⟩, fun f hf => ?_, fun q h => shortName_resolves ops q j h⟩
   · intro on st f hf
     obtain ⟨h1, h2⟩ := C14_3_on ops j on st f hf
     refine ⟨h1, ?_⟩
@@ -424,6 +456,9 @@ theorem C14_partial : C14_full := by
     refine ⟨(C14_5_complete ops i on op q1 n1 q2 n2 hn).1 ht, ?_⟩
     exact (C14_5_neutralised ops i on).2 op _ _ (by simp [mapped, ht])
   · simp [effOn, onAfter, hs]
+  · obtain ⟨w', e, h1⟩ := C14_3_pushed_stored ops j (some w) f hf
+    injection e with e; subst e
+    exact ⟨h1, fun hn => C14_3_nullable ops j _ f hn hf⟩
 
 /-! ## the repaired behaviours, pinned on the former witnesses (a regression breaks these `decide`s) -/
 
@@ -475,6 +510,26 @@ def opsClash : List Operand :=
 example : rewrite opsClash (.col ["int1", "t1"] "c") = some (.col ["int1", "t1"] "c") ∧
     tableFor opsClash ["int1", "t1"] = some 0 ∧ tableFor opsClash ["t1"] = some 1 ∧
     conditionsOf opsClash 1 (.bin "=" (.col ["int1", "t1"] "c") (.const "1")) = [] := by decide
+
+def opsN : List Operand :=
+  [ { kind := .tab, parts := ["int1", "t3"], alias := some ["t0"], jtype := "", on := none, target := none },
+    { kind := .mod, parts := ["proj", "pred2"], alias := some ["m1"], jtype := "RIGHT JOIN", on := none, target := none } ]
+
+def opsL : List Operand :=
+  [ { kind := .tab, parts := ["int1", "t1"], alias := some ["t"], jtype := "", on := none, target := none },
+    { kind := .tab, parts := ["int2", "t2"], alias := some ["s"], jtype := "LEFT JOIN", on := none, target := none },
+    { kind := .mod, parts := ["mindsdb", "pred"], alias := some ["m"], jtype := "JOIN", on := none, target := none } ]
+
+/-- 15097fa: `t0 RIGHT JOIN model`: `t0.c IS NULL` is not pushed into the fetch of `t0` (`t0.d = 1` still is);
+`t LEFT JOIN s`: not into `s`, but into `t` -/
+example : isNullable opsN 0 = true ∧
+    whereFilters opsN 0 (some (.bin "and" (.bin "is" (.col ["t0"] "c") (.const "None")) (.bin "=" (.col ["t0"] "d") (.const "1"))))
+      = [.bin "=" (.col [] "d") (.const "1")] := by decide
+example : isNullable opsL 0 = false ∧ isNullable opsL 1 = true ∧
+    whereFilters opsL 1 (some (.bin "is" (.col ["s"] "c") (.const "None"))) = [] ∧
+    whereFilters opsL 0 (some (.bin "is" (.col ["t"] "c") (.const "None"))) = [.bin "is" (.col [] "c") (.const "None")] ∧
+    whereFilters opsL 1 (some (.bin "is not" (.col ["s"] "c") (.const "None"))) = [.bin "is not" (.col [] "c") (.const "None")] := by
+  decide
 
 /-- the predict target is deliberately not an argument: `m.y = 4` stays an outer filter -/
 theorem C14_target_stays :
